@@ -277,6 +277,27 @@ def rule_instances(rng: random.Random, widths=(1, 2, 3, 4, 8, 16, 32, 64), per=6
             out.append(T("If", b1, BoolV(False), BoolV(True)))
             out.append(T("If", b1, BoolV(True), b2))
             out.append(T("__eq__", T("If", b1, x, y), T("If", b1, a, b)))
+            # And over one variable: eq/eq, eq/ne lists, UGE && != (boolean_and_simplifier)
+            out.append(T("And", T("__eq__", x, a), T("__eq__", x, b)))
+            out.append(T("And", T("__eq__", x, a), T("__eq__", x, a)))
+            out.append(T("And", T("UGE", x, a), T("__ne__", x, a)))
+            out.append(T("And", T("UGE", x, a), T("__ne__", x, b)))
+            out.append(T("And", T("__eq__", x, a), T("__ne__", x, b), T("__ne__", x, k)))
+            out.append(T("And", T("__ne__", x, b), T("__eq__", x, a), T("__eq__", x, a)))
+            out.append(T("And", T("__eq__", x, y), T("__ne__", x, y)))
+            out.append(T("And", T("__eq__", a, x), T("__ne__", x, a)))
+            out.append(T("__ne__", T("__xor__", x, BVV(1, W)), BVV(0, W)))
+            out.append(T("__ne__", T("__xor__", BVV(1, W), x), BVV(0, W)))
+            # branch-free signed max / min idioms (bitwise_xor_simplifier_minmax), q, r symbolic or constant
+            for q, r in ((x, y), (x, a), (a, y)):
+                t = T("__xor__", q, r)
+                for (s_, u2) in ((T("__sub__", q, r), q), (T("__sub__", r, q), r)):
+                    u = T("__xor__", s_, u2)
+                    v = T("__and__", u, t)
+                    w_ = T("__xor__", v, s_)
+                    sh_ = T("__rshift__", w_, BVV(W - 1, W))
+                    out.append(T("__xor__", q, T("__and__", sh_, t)))
+                    out.append(T("__xor__", T("__and__", t, sh_), q))
     return [t for t in out if t is not None]
 
 
